@@ -11,7 +11,7 @@
     (docsem.py), and that every sequence returned by every strategy has that
     many entries for every factor.
 
-    Notation (Front/TrialsProofs.v):
+    Notation (Front/TrialsWf.v, Front/TrialsProofs.v):
       [fstart fb f]   window start of f (0 for a non-derived factor)
       [stride1 fb f]  f's window stride is 1 (the constructors reject other crossed factors)
       [sustain fb f]  f's sustain count (Nest: inner length for outer factors)
